@@ -11,8 +11,11 @@ for ln in (ROOT / "properties.jsonl").read_text().splitlines():
 # claimed properties -> technique (the level text and note come from the props module itself)
 TECHNIQUE = {
     "C05": "Lean 4 proof (confluence of all topological orders / multi-worker schedules over key-indexed graphs) + proven checker on real graphs; purity sampled",
+    "C07": "Lean 4 proof (declared labels = computed labels for label-level operator chains, every partition) + labels correspondence; dtype kinds compared end to end",
     "C09": "Lean 4 proof (LayerOK layers merge into a closed, acyclic graph; checker soundness) + exact graph correspondence + proven checker on real graphs",
     "C12": "Lean 4 proof (run(layer)=sem for simple/staged/disk shuffle, all sizes) + exact graph correspondence",
+    "C17": "Lean 4 proof (alias layer and cut theorems over key-indexed graphs) + exact FromGraph graph correspondence + cut-point search",
+    "C18": "Lean 4 proof (fused-bucket partition, reader filter instance of C03, overwrite-guard prefix theorem) + correspondence of buckets/divisions/guard + parquet write/read-back search",
     "C13": "Lean 4 proof (fewer/more/size concat preservation, proven plan validator, planner for strict vectors) + exact graph correspondence + validator on all enumerated real plans",
 }
 DESIGN_REF = {k: f"DESIGN.md §6 {k}" for k in TECHNIQUE}
